@@ -212,16 +212,16 @@ type preOp struct {
 }
 
 type scenario struct {
-	ID        string  `json:"id"`
-	Agent     string  `json:"agent"` // cli name
-	Path      string  `json:"path"`  // --path ("" = not given)
-	User      bool    `json:"user"`
-	Cwd       string  `json:"cwd"`
-	Home      string  `json:"home"`
-	Uid       int     `json:"uid"`
-	TempClash bool    `json:"temp_clash"`
-	TempSeed  uint64  `json:"temp_seed"`
-	Pre       []preOp `json:"pre"`
+	ID        string   `json:"id"`
+	Agent     string   `json:"agent"` // cli name
+	Path      string   `json:"path"`  // --path ("" = not given)
+	User      bool     `json:"user"`
+	Cwd       string   `json:"cwd"`
+	Home      string   `json:"home"`
+	Uid       int      `json:"uid"`
+	TempClash bool     `json:"temp_clash"`
+	TempSeed  uint64   `json:"temp_seed"`
+	Pre       []preOp  `json:"pre"`
 	Kinds     []string `json:"kinds"` // which pre-state families were drawn (for evidence)
 	// a second installation performed before the one under test (C16 sequences)
 	Before *struct {
@@ -741,12 +741,12 @@ func hasKind(s *scenario, ks ...string) bool {
 
 type stats struct {
 	scenarios, runs, crashRuns, errorRuns, reruns, tolerated int
-	faultFired                                              map[string]int
-	stepKinds                                               map[string]int
-	preKinds                                                map[string]int
-	distinct                                                map[string]struct{}
-	maxSteps                                                int
-	baseFail                                                int
+	faultFired                                               map[string]int
+	stepKinds                                                map[string]int
+	preKinds                                                 map[string]int
+	distinct                                                 map[string]struct{}
+	maxSteps                                                 int
+	baseFail                                                 int
 }
 
 var errnos = []string{"EIO", "ENOSPC", "EACCES", "EMFILE", "EROFS", "EDQUOT"}
